@@ -5,7 +5,21 @@ let blob_of_json j =
   | _ -> raise (Model_error "blob: expected [hash, len, added, mine, fin]")
 let pair_of_json j =
   match jlist j with [a; b] -> (jn a, jn b) | _ -> raise (Model_error "pair expected")
-let db_of_json j =
+let legacy_of_json j =
+  match jlist j with
+  | [h; l; f] -> ((jn h, jn l), jbool f)
+  | _ -> raise (Model_error "legacy row: expected [hash, len, finished]")
+let rec db_of_json j =
+  match jfield_opt j "legacy" with
+  | Some lg ->
+    (* a database of an older release: the rows in "legacy" go through the model's migration, "blobs" are added after it *)
+    migrated_db (Stdlib.List.map legacy_of_json (jlist lg))
+      (Stdlib.List.map blob_of_json (jlist (jfield j "blobs")))
+      (Stdlib.List.map pair_of_json (jlist (jfield j "sblobs")))
+      (Stdlib.List.map pair_of_json (jlist (jfield j "streams")))
+      (Stdlib.List.map jn (jlist (jfield j "files")))
+      (Stdlib.List.map jn (jlist (jfield j "disk")))
+  | None ->
   { blobs = Stdlib.List.map blob_of_json (jlist (jfield j "blobs"));
     sblobs = Stdlib.List.map pair_of_json (jlist (jfield j "sblobs"));
     streams = Stdlib.List.map pair_of_json (jlist (jfield j "streams"));
